@@ -52,6 +52,7 @@ class Ctx:
         self.functions = {}       # qualname -> status 'proved'|'inlined'|'assumed'|'bounded'
         self.trusted = []
         self.assumptions = []
+        self.xcheck = {}          # verdicts of the cvc5 cross-check of z3 `unsat` answers
         self.timeout_ms = 10000 if tier == 'quick' else 60000
         self.backends = {'z3': 0, 'cvc5': 0, 'z3-4.8.12': 0, 'syntactic': 0}
         self.backend_s = {'z3': 0.0, 'cvc5': 0.0, 'z3-4.8.12': 0.0}
@@ -181,6 +182,8 @@ class Ctx:
             o.smt_size = res.get('smt_chars', 0)
             for k, v in (res.get('backend_s') or {}).items():
                 self.backend_s[k] = self.backend_s.get(k, 0.0) + v
+            if res.get('xcheck'):
+                self.xcheck[res['xcheck']] = self.xcheck.get(res['xcheck'], 0) + 1
             self.settle(o, res['status'], res.get('backend', 'z3'), res.get('detail', ''), res.get('model'))
             if res['status'] != PROVED:
                 n_open[0] += 1
@@ -257,6 +260,17 @@ class Ctx:
             return dict(out, status=PROVED, backend='z3', detail='satisfiability of the precondition not decided '
                                                               'by the solver (unknown); not unsat')
         if r == z3.unsat:
+            # cross-check of the deciding verdict by an independent solver (a z3 unsoundness was found during the build,
+            # pyvc/path.py): every obligation in the thorough tier, a deterministic 10 % sample in the quick tier.
+            # cvc5 answering `sat` turns the obligation into UNDECIDED (solver disagreement), never into a violation.
+            import zlib
+            if mode == 'prove' and (self.tier == 'thorough' or zlib.crc32(o.id.encode()) % 10 == 0):
+                t1 = time.time()
+                v2, txt = self._cvc5_verdict(s.to_smt2(), 4)
+                bs['cvc5-xcheck'] = time.time() - t1
+                out['xcheck'] = v2
+                if v2 == 'sat':
+                    return dict(out, status=UNDECIDED, detail='SOLVER DISAGREEMENT: z3 unsat, cvc5 sat\n' + txt[:300])
             return dict(out, status=PROVED)
         if r == z3.sat:
             m = s.model()
@@ -284,6 +298,21 @@ class Ctx:
         if r2 == 'sat':
             return dict(out, status=REFUTED, backend=be, detail='counter-model found by second solver\n' + txt[:400])
         return dict(out, status=UNDECIDED, detail=f'z3: unknown ({reason}); second solver: {r2}')
+
+    def _cvc5_verdict(self, smt, seconds):
+        with tempfile.NamedTemporaryFile('w', suffix='.smt2', delete=False) as f:
+            f.write('(set-logic ALL)\n' + smt)
+            fn = f.name
+        try:
+            p = subprocess.run(['/usr/bin/cvc5', '--strings-exp', f'--tlimit={seconds * 1000}', fn], capture_output=True,
+                               text=True, timeout=seconds + 5)
+            out = p.stdout.strip().splitlines()
+            v = out[0].strip() if out else 'unknown'
+            return (v if v in ('sat', 'unsat') else 'unknown'), '\n'.join(out)
+        except Exception as e:  # noqa
+            return 'unknown', str(e)
+        finally:
+            os.unlink(fn)
 
     def second_opinion_smt(self, smt):
         res = ('unknown', 'none', 0.0, '')
